@@ -217,7 +217,8 @@ func (pnf *PageNumberFinder) getPageInfoAndText(link *html.Node, pageURL *nurl.U
 			return nil, ""
 		}
 
-		hrefURL, err = nurl.Parse(linkHref)
+		// (an absolute href is still the way the page wrote it)
+		hrefURL, err = nurl.Parse(stringutil.EscapeInvalidURLChars(linkHref))
 		if err != nil {
 			return nil, ""
 		}
